@@ -32,6 +32,8 @@ def run(ctx):
                            'the stored rows and the per-shell statistics')
     # the formulas: exact linear-form algebra in the log domain
     rule_E_shell(ctx)
+    from ..initrules import rule_I1
+    rule_I1(ctx, {'stats'})
     from ..shape import rule_N3
     rule_N3(ctx, classes={'Sampler'}, floor=5)
     ctx.floor('L1', 10, 'member lockstep verdicts')
